@@ -161,6 +161,8 @@ def one(rec, hub, seed, tier, i):
             sel = rng.random(flat.size)
             flat[sel < 0.3] = 0.0
             flat[(sel >= 0.3) & (sel < 0.6)] *= -1.0
+            tiny = (sel >= 0.6) & (sel < 0.7)
+            flat[tiny] = np.array([1e-9, -3e-12, 5e-300, 2.5e-7])[rng.integers(0, 4, size=int(tiny.sum()))]  # small, but not zero
         from ..gen import relayout
 
         x = fd.FlodymArray(dims=dims, values=relayout(v2.copy(), rng))  # C, Fortran or strided memory layout
